@@ -3,6 +3,9 @@ import os, sys, json, time, hashlib, random, importlib, traceback
 from . import VERIF, build
 
 EVID = os.path.join(VERIF, "evidence")
+if os.environ.get("OVLD_REPO"):
+    # a run against a scratch copy (seeded-change evaluation) must not overwrite the evidence of /repo
+    EVID = os.path.join("/tmp", "verif-scratch-evidence")
 REPLAYS = os.path.join(VERIF, "replays")
 KF_DIR = os.path.join(VERIF, "findings")
 
